@@ -165,6 +165,7 @@ class Report:
         self.samples = []
         self.rule_counts = {}
         self.extra = {}
+        self.min_failures = []
 
     # an obligation is one rule instance on one construct
     def ok(self, rule, construct, detail=None, loc=None, nontrivial=True):
@@ -197,7 +198,8 @@ class Report:
     def require_min(self, rule, minimum):
         n = self.rule_counts.get(rule, 0)
         if n < minimum:
-            raise AnalysisError(
+            # deferred: a violation found elsewhere is the more specific verdict; otherwise exit 2 at finish()
+            self.min_failures.append(
                 f"rule {rule} matched {n} instance(s), fewer than the {minimum} confirmed by hand - "
                 "the rule no longer sees the code it was written for"
             )
@@ -214,6 +216,9 @@ class Report:
             k = match_known(known, self.pid, v["rule"], v["construct"])
             (listed if k else unlisted).append((v, k))
         os.makedirs(os.path.join(EVIDENCE_DIR, "replays"), exist_ok=True)
+        for fn in os.listdir(os.path.join(EVIDENCE_DIR, "replays")):
+            if fn.startswith(self.pid + "_"):
+                os.unlink(os.path.join(EVIDENCE_DIR, "replays", fn))
         lines = []
         for v, k in listed:
             lines.append(
@@ -281,7 +286,13 @@ class Report:
             print(f"   {r}: {c} instance(s)")
         for ln in lines:
             print(ln)
-        return 1 if unlisted else 0
+        if unlisted:
+            return 1
+        if self.min_failures:
+            for m in self.min_failures:
+                print(f"ANALYSIS-ERROR property={self.pid}: {m}")
+            return 2
+        return 0
 
 
 def load_known():
